@@ -276,7 +276,8 @@ var evVals = []int64{0, 1, -1, 2, 7, 1000, math.MaxInt64, math.MinInt64, math.Ma
 
 func randPerf(rng *rand.Rand, i int) string {
 	v := make([]int64, 11)
-	v[0] = 1600000000000 + int64(i)*1000 + int64(rng.Intn(1000))
+	// time stamps in any order (events may be recorded out of order), sometimes equal
+	v[0] = 1600000000000 + int64(rng.Intn(20))*1000 + int64(rng.Intn(3))*500
 	if rng.Intn(3) != 0 {
 		v[1] = int64(rng.Intn(4)) // id: zero and non-zero
 	} else {
